@@ -17,6 +17,8 @@ import (
 //	R-method-set        each of the 8 methods every transport serves is a key of the shared dispatch
 //	                    table and a case of the stdio server's own switch
 //	R-same-callee       for each method both routes end (through thin forwarders) in the same function
+//	R-route-unconditional  a route that has found the method calls its handler on every path
+//	R-decode-alike      every server decodes requests with the same JSON decoder configuration
 //	R-ping              all ping routes produce a value whose JSON encoding is {}
 //	R-wrapper-shape     every function that wraps a handler result into a JSONRPCResponse first tests the
 //	                    result for *JSONRPCError and passes it through; the wrap is on the failed-test edge
@@ -218,6 +220,120 @@ func checkC14(c *Ctx) {
 	}
 	c.R.Min("R-session-independent", 1)
 
+	// ---- R-route-unconditional: a route that has found the method always runs its handler. A check placed between
+	// "found" and the handler answers requests on this route that the other route hands to the handler.
+	nUncond := 0
+	postDominates := func(h, from *ssa.BasicBlock) bool {
+		if h == from {
+			return true
+		}
+		for b := range flow.BlocksReachableAvoiding(from, map[*ssa.BasicBlock]bool{h: true}) {
+			if len(b.Succs) == 0 {
+				return false
+			}
+		}
+		return true
+	}
+	for _, fn := range c.P.LibFns {
+		if clientSide(c, fn) {
+			continue
+		}
+		ir.EachInstr(fn, func(_ *ssa.BasicBlock, _ int, in ssa.Instruction) {
+			lk, ok := in.(*ssa.Lookup)
+			if !ok || !lk.CommaOk || !derivesFromMethod(lk.Index) || lk.Referrers() == nil {
+				return
+			}
+			var val, okv ssa.Value
+			for _, r := range *lk.Referrers() {
+				if ex, ok := r.(*ssa.Extract); ok {
+					if ex.Index == 0 {
+						val = ex
+					} else {
+						okv = ex
+					}
+				}
+			}
+			if val == nil || okv == nil || val.Referrers() == nil {
+				return
+			}
+			if _, isFunc := val.Type().Underlying().(*types.Signature); !isFunc {
+				return
+			}
+			var hcall *ssa.Call
+			passesReq := false
+			for _, r := range *val.Referrers() {
+				if call, ok := r.(*ssa.Call); ok && call.Call.Value == val {
+					hcall = call
+					for _, a := range call.Call.Args {
+						if ir.TypeStr(a.Type()) == "*mcp.JSONRPCRequest" {
+							passesReq = true
+						}
+					}
+				}
+			}
+			if hcall == nil || !passesReq {
+				return
+			}
+			// the found edge
+			for _, b := range fn.Blocks {
+				if len(b.Instrs) == 0 {
+					continue
+				}
+				ifi, ok := b.Instrs[len(b.Instrs)-1].(*ssa.If)
+				if !ok || ifi.Cond != okv {
+					continue
+				}
+				nUncond++
+				c.R.Check(postDominates(hcall.Block(), b.Succs[0]), "R-route-unconditional", "found method runs its handler in "+fname(fn), c.Pos(hcall.Pos()),
+					"every path from the successful lookup to a return passes through the handler call",
+					sprintf("%s finds the method in its table but can return without calling the method's handler (a check sits between the lookup and the call): requests the other transports' routing hands to the handler are answered differently here", fname(fn)))
+			}
+		})
+	}
+	for _, r := range routes {
+		if r.where == nil || len(c.MapLiteralDispatch()[r.where]) > 0 {
+			continue
+		}
+		for _, b := range r.where.Blocks {
+			if len(b.Instrs) == 0 {
+				continue
+			}
+			ifi, ok := b.Instrs[len(b.Instrs)-1].(*ssa.If)
+			if !ok {
+				continue
+			}
+			bin, ok := ifi.Cond.(*ssa.BinOp)
+			if !ok || bin.Op != token.EQL {
+				continue
+			}
+			cs, isC := ir.ConstStr(bin.Y)
+			if !isC || !derivesFromMethod(bin.X) || r.targets[cs] == nil {
+				continue
+			}
+			// the block of the case's handler call
+			var hb *ssa.BasicBlock
+			seen := map[*ssa.BasicBlock]bool{}
+			for cur := b.Succs[0]; cur != nil && !seen[cur] && hb == nil; {
+				seen[cur] = true
+				for _, in := range cur.Instrs {
+					if call, ok := in.(*ssa.Call); ok && ir.StaticCallee(call) == r.targets[cs] {
+						hb = cur
+					}
+				}
+				if len(cur.Succs) == 1 {
+					cur = cur.Succs[0]
+				} else {
+					cur = nil
+				}
+			}
+			nUncond++
+			c.R.Check(hb != nil && postDominates(hb, b.Succs[0]), "R-route-unconditional", cs+" runs its handler in "+fname(r.where), c.Pos(r.pos[cs]),
+				"the case calls the handler on every path", sprintf("the %q case of %s can return without calling %s", cs, fname(r.where), fnameOrNil(r.targets[cs])))
+		}
+	}
+	c.R.Min("R-route-unconditional", 9)
+
+	c14DecodeAlike(c)
 	c14Wrappers(c)
 	c03Passthrough(c)
 	c14ClientDecoders(c)
@@ -553,4 +669,75 @@ func c14ResultPresence(c *Ctx) {
 		})
 	}
 	c.R.Min("R-result-presence", 3)
+}
+
+// c14DecodeAlike (R-decode-alike): what a handler sees of a request's params depends on how the transport decoded the
+// request (UseNumber turns every number into json.Number, DisallowUnknownFields rejects what the others accept). All
+// server-side sites that decode into a *JSONRPCRequest must use one configuration.
+func c14DecodeAlike(c *Ctx) {
+	type site struct {
+		fn   *ssa.Function
+		pos  token.Pos
+		mode string
+	}
+	var sites []site
+	isReqPtr := func(v ssa.Value) bool {
+		t := ir.TypeStr(ir.Unwrap(v).Type())
+		return t == "*mcp.JSONRPCRequest"
+	}
+	for _, fn := range c.P.LibFns {
+		if clientSide(c, fn) {
+			continue
+		}
+		ir.EachCall(fn, func(call ssa.CallInstruction) {
+			cc := call.Common()
+			switch ir.CallName(call) {
+			case "encoding/json.Unmarshal":
+				if len(cc.Args) == 2 && isReqPtr(cc.Args[1]) {
+					sites = append(sites, site{fn, call.Pos(), "default"})
+				}
+			case "(*encoding/json.Decoder).Decode":
+				if len(cc.Args) == 2 && isReqPtr(cc.Args[1]) {
+					var opts []string
+					if refs := cc.Args[0].Referrers(); refs != nil {
+						for _, r := range *refs {
+							if oc, ok := r.(ssa.CallInstruction); ok {
+								switch n := ir.CallName(oc); n {
+								case "(*encoding/json.Decoder).UseNumber", "(*encoding/json.Decoder).DisallowUnknownFields":
+									opts = append(opts, strings.TrimPrefix(n, "(*encoding/json.Decoder)."))
+								}
+							}
+						}
+					}
+					sort.Strings(opts)
+					mode := "default"
+					if len(opts) > 0 {
+						mode = strings.Join(opts, "+")
+					}
+					sites = append(sites, site{fn, call.Pos(), mode})
+				}
+			}
+		})
+	}
+	cnt := map[string]int{}
+	for _, s := range sites {
+		cnt[s.mode]++
+	}
+	major := ""
+	for m, n := range cnt {
+		if n > cnt[major] || (n == cnt[major] && m < major) {
+			major = m
+		}
+	}
+	seen := map[string]int{}
+	for _, s := range sites {
+		construct := "request decoded in " + fname(s.fn)
+		seen[construct]++
+		if seen[construct] > 1 {
+			construct = sprintf("%s#%d", construct, seen[construct])
+		}
+		c.R.Check(s.mode == major, "R-decode-alike", construct, c.Pos(s.pos), "decoder configuration: "+s.mode,
+			sprintf("%s decodes requests with decoder configuration %q while the other servers use %q: the same request reaches the shared handlers with different argument values (e.g. json.Number instead of float64) depending on the transport", fname(s.fn), s.mode, major))
+	}
+	c.R.Min("R-decode-alike", 3)
 }
